@@ -216,7 +216,7 @@ def step (c : Conn) : Op → Conn × Out
   | .rxMaxData v => rxMaxData c v
   | .rxMaxStreamData sid v => rxMaxStreamData c sid v
   | .rxMaxStreams uni v => rxMaxStreams c uni v
-  | .transportParams tp => (transportParams c tp, {})
+  | .transportParams tp => rxTransportParams c tp
   | .unblock uni => (unblockStreams c uni, {})
   | .rxStopSending sid => rxStopSending c sid
   | .rxStreamDataBlocked sid => rxStreamDataBlocked c sid
